@@ -145,5 +145,39 @@ impl BuilderS {
 //@@ end
 }
 
+// ---------------------------------------------------------------------------------------------------------------
+// re-attach (link/sender.rs, link/receiver.rs, link/shared_inner.rs): the relay built for a link that attaches again
+impl Consumer { pub fn producer(&self) -> (r: Producer) ensures r.state.id() == self.state.id(), r.notifier.id() == self.notifier.id() { Producer { notifier: self.notifier.clone(), state: self.state.clone() } } }
+impl LinkS {
+    pub fn flow_state(&self) -> (r: &Consumer) ensures *r == self.flow_state { &self.flow_state }
+    pub fn unsettled(&self) -> (r: &UnsettledArc) ensures *r == self.unsettled { &self.unsettled }
+    pub fn rcv_settle_mode(&self) -> (r: &ReceiverSettleMode) ensures *r == self.rcv_settle_mode { &self.rcv_settle_mode }
+}
+impl LinkR {
+    pub fn flow_state(&self) -> (r: &FlowArc) ensures *r == self.flow_state { &self.flow_state }
+    pub fn unsettled(&self) -> (r: &UnsettledArc) ensures *r == self.unsettled { &self.unsettled }
+    pub fn rcv_settle_mode(&self) -> (r: &ReceiverSettleMode) ensures *r == self.rcv_settle_mode { &self.rcv_settle_mode }
+}
+impl SenderInner {
+//@@ fn file=fe2o3-amqp/src/link/sender.rs impl=`~impl<L>LinkEndpointInnerforSenderInner<L>where` name=as_new_link_relay as=sender_as_new_link_relay
+//@@ param tx : LinkTx
+//@@ spec
+    ensures r is Sender && r->Sender_tx == tx
+        && r->Sender_flow_state.state.id() == self.link.flow_state.state.id() && r->Sender_flow_state.notifier.id() == self.link.flow_state.notifier.id()   // [C08.wiring.relay-and-link-share-the-flow-state] (re-attach)
+        && r->Sender_unsettled.id() == self.link.unsettled.id()                          // [C02.wiring.relay-and-link-share-the-unsettled-map] (re-attach) the deliveries still unsettled when the link re-attaches are settled in the same map
+        && r->Sender_receiver_settle_mode == self.link.rcv_settle_mode,                  // [C02.wiring.sender-relay-keeps-the-settle-mode] (re-attach)
+//@@ end
+}
+impl ReceiverInner {
+//@@ fn file=fe2o3-amqp/src/link/receiver.rs impl=`~impl<L>LinkEndpointInnerforReceiverInner<L>where` name=as_new_link_relay as=receiver_as_new_link_relay
+//@@ param tx : LinkTx
+//@@ spec
+    ensures r is Receiver && r->Receiver_tx == tx
+        && r->Receiver_flow_state.id() == self.link.flow_state.id()                      // [C09.wiring.relay-and-link-share-the-flow-state] (re-attach)
+        && r->Receiver_unsettled.id() == self.link.unsettled.id()                        // [C02.wiring.relay-and-link-share-the-unsettled-map] (re-attach)
+        && r->Receiver_receiver_settle_mode == self.link.rcv_settle_mode && !r->Receiver_more,    // [C02.wiring.relay-knows-the-links-settle-mode] (re-attach)
+//@@ end
+}
+
 } // verus!
 fn main() {}
